@@ -62,6 +62,8 @@ func NewBuilderCase(g *Gen, id int) *Case {
 		}
 		defReq = r.Intn(2)
 	}
+	// ... likewise Catch and Required in either order: a missing required value takes the catch value
+	catchReq := defReq >= 0 && r.Fork(0xca7c).P(50)
 	for k := 0; k < n; k++ {
 		c := r.Intn(100)
 		forcedOpts := -1 // 1: options forced, 0: no options
@@ -77,6 +79,9 @@ func NewBuilderCase(g *Gen, id int) *Case {
 			c = 70
 			if (k == 0) == (defReq == 0) {
 				c = 80 // Default
+				if catchReq {
+					c = 86 // Catch
+				}
 			}
 		}
 		switch {
@@ -234,6 +239,9 @@ func NewBuilderCase(g *Gen, id int) *Case {
 		dest0 = g.DestValue(node, t, false)
 	} else {
 		in := g.inputRaw(node)
+		if defReq >= 0 && r.Fork(0xca7d).P(60) {
+			in = g.absent() // (the patterns above are about absent values)
+		}
 		c.In = &in
 		data = in.Go(nil)
 	}
